@@ -637,6 +637,14 @@ class Field(Criterion, JSON):
         if self.table is not None:
             yield from self.table.nodes_()
 
+    def __hash__(self) -> int:
+        # the rendered "table"."column" text leaves the schema out: two tables of one name in different
+        # schemas are different references
+        try:
+            return hash((self.name, self.alias, self.table))
+        except TypeError:
+            return super().__hash__()
+
     @builder
     def replace_table(  # type:ignore[return]
         self, current_table: "Table" | None, new_table: "Table" | None
